@@ -50,10 +50,15 @@ func isOriginAllowed(origin string, allowOrigins []string) (string, bool) {
 				return origin, true
 			}
 
-			if strings.Contains(allowedURL.Host, "*") {
-				pattern := strings.ReplaceAll(allowedURL.Host, "*.", "(.*\\.)?")
-				pattern = strings.ReplaceAll(pattern, "*", ".*")
-				matched, errMatched := regexp.MatchString("^"+pattern+"$", originURL.Host)
+			if strings.Contains(allowedURL.Hostname(), "*") &&
+				allowedURL.Scheme == originURL.Scheme &&
+				allowedURL.Port() == originURL.Port() {
+				parts := strings.Split(allowedURL.Hostname(), "*")
+				for i, part := range parts {
+					parts[i] = regexp.QuoteMeta(part)
+				}
+				pattern := strings.Join(parts, ".*")
+				matched, errMatched := regexp.MatchString("^"+pattern+"$", originURL.Hostname())
 				if errMatched == nil && matched {
 					return origin, true
 				}
